@@ -43,7 +43,7 @@ def _layout(case):
         if mode == "descending":
             return l0 + 5000 - step * k
         if mode == "wrap":
-            return (l0 + k) % 400 + 1
+            return (l0 + k) % max(400, m + 1) + 1  # never repeats a label: one output slot per distinct label is the contract
         return l0 + step * k
 
     bounds = []
